@@ -11,7 +11,7 @@ ls -d $HERE/seeded/*/ | xargs -P 8 -I{} bash -c 'd={}; d=${d%/}; id=$(basename $
 grep -c CAUGHT /tmp/gfreg-seeds.txt | sed 's/^/  caught: /'; grep -v CAUGHT /tmp/gfreg-seeds.txt | sed 's/^/  NOT CAUGHT: /'
 for DIR in "$@"; do
   echo "== refactorings in $DIR"
-  ls -d $DIR/C*-r*/ 2>/dev/null | xargs -P 8 -I{} bash -c 'd={}; r=$(./matrix.sh $d/patch.diff 2>&1 | head -1); echo "$(basename $d) $r"' | sort > /tmp/gfreg-ref.txt
+  ls -d $(realpath $DIR)/[CX]*/ 2>/dev/null | xargs -P 8 -I{} bash -c 'd={}; r=$(./matrix.sh $d/patch.diff 2>&1 | head -1); echo "$(basename $d) $r"' | sort > /tmp/gfreg-ref.txt
   grep -c "ALARMS: none" /tmp/gfreg-ref.txt | sed 's/^/  silent: /'
   grep -c "SKIPPED" /tmp/gfreg-ref.txt | sed 's/^/  no longer applicable (context changed by a later fix commit): /'
   grep -v "ALARMS: none" /tmp/gfreg-ref.txt | grep -v SKIPPED | sed 's/^/  FALSE ALARM: /'
